@@ -201,28 +201,42 @@ _C07 = '''
 @cond(timeout=1500, encodes=ENC,
       bound="chart type {tname} (fixed in this split; quick: 6 representative types, thorough: all 29 writable types read from the "
             "ChartXmlWriter dispatch table); series 0..2, points per series 0..2, one value possibly missing (symbolic position), "
-            "category kind in [str, number, number starting with 0, date either side of the 1900 leap-year bug, two-level]; then "
-            "replace_data with 1..3 series of 1..3 points (zero series would leave the plot area without a plot: outside the claim) on the same chart, its c:idx/c:order optionally shifted by 2 (non-contiguous, "
-            "as PowerPoint leaves them): XML valid against dml-chart.xsd, readers return exactly the data, idx/order unique, "
-            "content outside c:ser untouched")
-def chart_reports_its_data_{ti}(ns: int, npts: int, none_at: int, ki: int, ns2: int, npts2: int, shifted: bool) -> bool:
+            "category kind in [str, number, number starting with 0, date either side of the 1900 leap-year bug, two-level]: generated "
+            "XML valid against dml-chart.xsd, readers return exactly the data, idx/order unique")
+def chart_generated_{ti}(ns: int, npts: int, none_at: int, ki: int) -> bool:
     """
     pre: 0 <= ns <= 2 and 0 <= npts <= 2 and -1 <= none_at < 2 and 0 <= ki < len(CAT_KINDS)
-    pre: -1 <= ns2 <= 3 and ns2 != 0 and 1 <= npts2 <= 3 and (ns2 >= 0 or (npts2 == 1 and not shifted))
-    pre: not excluded("chart_reports_its_data", ns=ns, ns2=ns2)
     pre: ki == 0 or not {is_xy}
     post: _
     """
-    return _case({ti}, ns, npts, none_at, ki, ns2, npts2, 2 if shifted else 0)
+    return _case({ti}, ns, npts, none_at, ki, -1, 1, 0)
+
+
+@cond(timeout=1500, encodes=ENC,
+      bound="chart type {tname}: a generated chart with 1..2 series of 2 points, its c:idx/c:order optionally shifted by 2 "
+            "(non-contiguous, as PowerPoint leaves them), then replace_data with 1..3 series of 1..3 points (zero series would leave "
+            "the plot area without a plot: outside the claim), category kind as above: XML valid, readers return exactly the new "
+            "data, idx/order unique, content outside c:ser untouched")
+def chart_replaced_{ti}_{ki}(ns: int, ns2: int, npts2: int, shifted: bool) -> bool:
+    \"\"\"
+    pre: 1 <= ns <= 2 and 1 <= ns2 <= 3 and 1 <= npts2 <= 3
+    post: _
+    \"\"\"
+    return _case({ti}, ns, 2, -1, {ki}, ns2, npts2, 2 if shifted else 0)
 '''
+_GEN, _REP = _C07.split("\n\n\n@cond", 1)
+_REP = "@cond" + _REP
 for _ti, _t in enumerate(TYPES):
-    gen(_C07.format(ti=_ti, tname=_t.name, is_xy=(_t in XY_TYPES + BUBBLE_TYPES)), globals())
+    _xy = _t in XY_TYPES + BUBBLE_TYPES
+    gen(_GEN.format(ti=_ti, tname=_t.name, is_xy=_xy), globals())
+    for _ki in range(1 if _xy else len(CAT_KINDS)):
+        gen(_REP.format(ti=_ti, ki=_ki, tname=_t.name + " / category kind " + CAT_KINDS[_ki], is_xy=_xy), globals())
 
 
-@cond(expect="refute", timeout=600, twin_of="chart_reports_its_data_0")
+@cond(expect="refute", timeout=600, twin_of="chart_replaced_0_3")
 def chart_twin(ns: int, npts: int, ki: int, ns2: int) -> bool:
     """
-    pre: 0 <= ns <= 2 and 1 <= npts <= 2 and 0 <= ki < len(CAT_KINDS) and 0 <= ns2 <= 3
+    pre: 1 <= ns <= 2 and 1 <= npts <= 2 and 0 <= ki < len(CAT_KINDS) and 1 <= ns2 <= 3
     post: _
     """
     t = TYPES[0]
